@@ -137,6 +137,18 @@ def run_catalogue(seed, seen_ops, ck=None):
             ck.note_case(f"{name}:{seed}")
         if before != after:
             bad.append((name, S.first_difference(before, after)))
+        elif outcome == "ok" and res is not None:
+            # "returns new objects": a second call on separately built, equal arguments must not hand back any
+            # mutable container of the first result (a cache keyed by value would)
+            try:
+                rng_state = rng.getstate()
+                args2 = copy.deepcopy(args)
+                res2 = call(args2)
+                shared = S.shared_containers(res, res2, exclude=S.container_ids(args) | S.container_ids(args2))
+                if shared:
+                    bad.append((name, f"two independent calls returned results sharing a mutable {shared}"))
+            except Exception:  # noqa
+                pass
         elif res is not None and any(res is a for a in args if not isinstance(a, (int, str, bytes, type(None)))):
             bad.append((name, "returned its argument object instead of a new object"))
     return bad
